@@ -57,6 +57,8 @@ type Fields struct {
 	B bool     `json:"B"`
 	A []string `json:"A"`
 	T string   `json:"T"`
+	// NoAcc: the record is a wrapper of raw bytes: it has no fields, no condition holds for it
+	NoAcc bool `json:"-"`
 }
 
 var keyPool = []string{"a", "ab", "b/c", "b/d", "b/de", "bc", "c/x/y", "c/x/z", "c/xy", "d", "e:1", "e:2"}
@@ -189,6 +191,9 @@ func (c *Cond) strField(f Fields) string {
 
 // eval is the independent evaluator written from the operator table in database/query/README.md.
 func (c *Cond) eval(f Fields) bool {
+	if f.NoAcc {
+		return false
+	}
 	switch c.Op {
 	case "and":
 		return c.Sub[0].eval(f) && c.Sub[1].eval(f)
@@ -304,6 +309,9 @@ func nonceOf(r record.Record) string {
 	defer r.Unlock()
 	acc := r.GetAccessor(r)
 	if acc == nil {
+		if w, ok := r.(*record.Wrapper); ok && w.Format == dsd.RAW {
+			return string(w.Data) // raw records carry their nonce as their content
+		}
 		return "<no accessor>"
 	}
 	s, _ := acc.GetString("N")
